@@ -276,6 +276,41 @@ Theorem C02_sample_writer_file_valid : forall o L md5, (forall l, length (md5 l)
       firstn (N.to_nat ch * (length (concat chunks) / N.to_nat ch)) (concat chunks).
 Proof. exact sample_writer_file_valid. Qed.
 
+Theorem C02_byte_writer_file_valid : forall o L md5, (forall l, length (md5 l) = 16%nat) ->
+  forall p rate bps en wo ch total w chunks,
+  options_wf wo ->
+  byte_new p en [] wo rate bps ch total = Ok w ->
+  Forall byte_ok (concat chunks) ->
+  let nb := bytes_per_sample_of bps in
+  let samples := decode_bytes en (N.to_nat nb) (concat chunks) in
+  forallb (FlacCodec.Wf.fits bps) samples = true ->
+  let W := N.of_nat (length samples) / ch in
+  1 <= W -> N.of_nat (length samples) < 2 ^ 36 ->
+  match total with Some T => T = nb * ch * W | None => True end ->
+  exists f blocks,
+    byte_run (encB o L rate bps) md5 p w chunks = Ok f /\
+    FlacCodec.Spec.spec_stream (f_stream f) = Ok (conv_si (f_si f), blocks) /\
+    concat (map FlacCodec.Stream.interleave_frame blocks) =
+      firstn (N.to_nat ch * (length samples / N.to_nat ch)) samples.
+Proof. exact byte_writer_file_valid. Qed.
+Theorem C02_channel_writer_file_valid : forall o L md5, (forall l, length (md5 l) = 16%nat) ->
+  forall p rate bps wo ch total w chunks,
+  options_wf wo ->
+  channel_new p [] wo rate bps ch total = Ok w ->
+  Forall (chunk_ok (N.to_nat ch)) chunks ->
+  let all := cconcat (N.to_nat ch) chunks in
+  forallb (FlacCodec.Wf.fits bps) (concat all) = true ->
+  let m := length (hd [] all) in
+  (1 <= m)%nat -> N.of_nat m < 2 ^ 36 ->
+  match total with Some T => T = N.of_nat m | None => True end ->
+  exists f blocks,
+    channel_run (encB o L rate bps) md5 p w chunks = Ok f /\
+    FlacCodec.Spec.spec_stream (f_stream f) = Ok (conv_si (f_si f), blocks) /\
+    stack blocks (repeat [] (N.to_nat ch)) = all.
+Proof. exact channel_writer_file_valid. Qed.
+
+Print Assumptions C02_byte_writer_file_valid.
+Print Assumptions C02_channel_writer_file_valid.
 Print Assumptions C02_sample_writer_file_valid.
 Print Assumptions C01_written_bytes_are_read.
 Print Assumptions C01_written_channels_are_read.
